@@ -161,7 +161,7 @@ func leafTerms() []kv.Term {
 	for _, ls := range labelSels() {
 		ts = append(ts, kv.Term{Op: "labelsel", LS: ls})
 	}
-	ts = append(ts, kv.Term{Op: "sel", Sel: "everything"}, kv.Term{Op: "sel", Sel: "nothing"})
+	ts = append(ts, kv.Term{Op: "sel", Sel: "everything"}, kv.Term{Op: "sel", Sel: "nothing"}, kv.Term{Op: "sel", Sel: "everything-nil"})
 	for i := range kv.FNs {
 		ts = append(ts, kv.Term{Op: "fn", N: i})
 	}
@@ -273,6 +273,14 @@ func filterdiff(w *bufio.Writer, seed uint64, tier string, stats map[string]int)
 		nD2, nD3, nPairs = 3000, 1500, 60000
 	}
 	d2 := compose(r, all1, nD2)
+	// conjunctions / disjunctions of selector-type children only (several selectors side by side)
+	var selLeaves []kv.Term
+	for _, t := range leaves {
+		if t.Op == "labels" || t.Op == "labelsel" || t.Op == "sel" {
+			selLeaves = append(selLeaves, t)
+		}
+	}
+	d2 = append(d2, compose(r, selLeaves, nD2/2)...)
 	d3 := compose(r, append(append([]kv.Term{}, all1...), d2...), nD3)
 	everything := append(append(append([]kv.Term{}, all1...), d2...), d3...)
 
@@ -297,6 +305,11 @@ func filterdiff(w *bufio.Writer, seed uint64, tier string, stats map[string]int)
 			}
 		}
 		fmt.Fprintln(w, kv.L(kind, a.Sx(), b.Sx(), kv.Bool(eq), "U", acceptVec(fa, univ), acceptVec(fb, univ)))
+		// Equals compares what the filters were built from: using a filter (Accept) must not change the answer,
+		// neither between the two used ones nor between a used one and a fresh build of the same arguments
+		if filter.FiltersEqual(fa, fb) != eq || filter.FiltersEqual(fa, b.Build()) != eq || filter.FiltersEqual(a.Build(), fb) != eq {
+			fmt.Fprintln(w, kv.L("unstable-equals", a.Sx(), b.Sx()))
+		}
 		stats[kind]++
 		if eq {
 			stats["eq-true"]++
